@@ -19,7 +19,8 @@ ASSUMPTIONS = ['set_eval_limit/reset_eval_cost are excluded (documented privileg
 SPINS = ['sp_while', 'sp_for', 'sp_dowhile', 'sp_foreach', 'sp_foreach_map', 'sp_foreach_str', 'sp_whiledec', 'sp_loopcond', 'sp_looplocal',
          'rc_direct', 'rc_mut_a', 'rc_fp', 'rc_filter', 'rc_map', 'rc_sort', 'rc_unique', 'rc_callother', 'rc_catch', 'rc_catch2']
 BUILDS = ['str+=', 'str+', 'gstr+=', 'sprintf', 'repeat', 'replace', 'implode', 'arr+=', 'arr+', 'garr+=', 'allocate', 'explode', 'map+', 'mapins',
-          'gmapins', 'allocmap', 'allocbuf', 'buf+', 'copy', 'keys']
+          'gmapins', 'allocmap', 'allocbuf', 'buf+', 'copy', 'keys', 'strrange', 'arrrange', 'bufrange', 'gstrrange', 'replace5', 'replace1', 'spad', 'spadr',
+          'scol', 'imparr', 'strslice', 'mapmul']
 
 
 def gen(rng, tier, i):
